@@ -407,3 +407,89 @@ def _from_call(f, h, c, depth=0):
     if h.op == "phi":
         return any(f.inst(strip_casts(f, v)) is not None and _from_call(f, f.inst(strip_casts(f, v)), c, depth + 1) for (v, _) in h.d["incoming"] if v.get("k") == "i")
     return False
+
+
+def rule_copy_consistency(ctx, rep, config="c-lib"):
+    rep.rule("C03-copy", "copy_anode (place, node, rule, disp) sizes and copies the child array of `node' by `rule': at every call the node and the rule are the `anode' and "
+                         "`rule' members of one and the same parse state (the rule the node was created for), never the rule of the symbol being reduced")
+    p = ctx.prog(config)
+    n = 0
+    for f in p.m.defined():
+        for c in f.calls():
+            if c.callee != "copy_anode" or len(c.args) < 4:
+                continue
+            n += 1
+            rep.cover(p, [f.name])
+            key = "%s/copy_anode#%d" % (f.name, n)
+
+            def owner(op, field, depth=0):
+                i = f.inst(strip_casts(f, op))
+                if i is None or depth > 3:
+                    return None
+                if i.op == "load":
+                    pa = resolve_addr(f, i.ops[0])
+                    if pa.last_field() == field and pa.root[0] == "val":
+                        return strip_casts(f, pa.root[1]).get("v")
+                    return None
+                if i.op == "phi":
+                    os_ = set(owner(v, field, depth + 1) for (v, _) in i.d["incoming"] if v.get("k") != "undef")
+                    return os_.pop() if len(os_) == 1 else None
+                return None
+            a, r = owner(c.args[1], "parse_state.anode"), owner(c.args[2], "parse_state.rule")
+            if a is not None and r is not None and a == r:
+                rep.ok("C03-copy", key, sample={"call": c.where()})
+            else:
+                rep.violation("C03-copy", key, "copy_anode is given a rule that is not the rule of the parse state the node belongs to: the copy's child array is allocated and "
+                              "copied with another rule's translation length (heap overflow, or a copy without its NULL terminator)", where=c.where(), witness=[c.where()])
+    rep.floor("C03-copy", "calls of copy_anode", n, 1)
+
+
+def rule_parent_state(ctx, rep, config="c-lib"):
+    rep.rule("C03-parent", "every state that make_parse pushes for a candidate of a nonterminal hangs under the same parse state: all stores of `parent_anode_state' in "
+                           "the candidate loop take X or X->parent_anode_state for one and the same state X (the state whose abstract node -- possibly the copy made for "
+                           "this origin -- receives the translation)")
+    p = ctx.prog(config)
+    f = p.fn("make_parse")
+    rep.cover(p, [f.name])
+    loops = [L for L in f.loops() if any(i.is_call() and i.callee == "copy_anode" for bn in L["body"] for i in f.bmap[bn].insts)]
+    if not loops:
+        raise AnalysisBroken("C03-parent: candidate loop not found")
+    L = min(loops, key=lambda l_: len(l_["body"]))
+    bases = {}
+    n = 0
+
+    def base_of(op, depth=0):
+        o = strip_casts(f, op)
+        i = f.inst(o)
+        if i is None or depth > 4:
+            return set([None])
+        if i.op == "load":
+            pa = resolve_addr(f, i.ops[0])
+            if pa.last_field() == "parse_state.parent_anode_state" and pa.root[0] == "val":
+                return set([strip_casts(f, pa.root[1]).get("v")])
+            return set([i.id])
+        if i.op == "select":
+            return base_of(i.ops[1], depth + 1) | base_of(i.ops[2], depth + 1)
+        if i.op == "phi" and i.block.name in L["body"] and i.block.name != L["header"] and depth < 3:
+            # the merge of `anode == NULL ? X->parent : X'
+            vs = set()
+            for (v, _) in i.d["incoming"]:
+                vs |= base_of(v, depth + 1)
+            return vs if len(vs) == 1 else set([i.id])
+        return set([i.id])
+    for bn in L["body"]:
+        for s_ in f.bmap[bn].insts:
+            if s_.op == "store" and resolve_addr(f, s_.ops[1]).last_field() == "parse_state.parent_anode_state":
+                # whole-struct copies are memcpy, not stores
+                n += 1
+                for b in base_of(s_.ops[0]):
+                    bases.setdefault(b, []).append(s_)
+    if n < 3:
+        raise AnalysisBroken("C03-parent: %d stores of parent_anode_state in the candidate loop (3 confirmed by reading)" % n)
+    if len(bases) == 1:
+        rep.ok("C03-parent", "make_parse/one-parent-state", sample={"stores": n})
+    else:
+        minority = min(bases.items(), key=lambda kv: len(kv[1]))
+        rep.violation("C03-parent", "make_parse/one-parent-state", "the states pushed for the candidates of one nonterminal are hung under different parse states: the store at %s "
+                      "uses another state than the %d sibling stores -- the translation of that candidate lands in the abstract node of another split, the node copied for "
+                      "this split keeps an empty slot" % (minority[1][0].where(), n - len(minority[1])), where=minority[1][0].where(), witness=[s_.where() for ss in bases.values() for s_ in ss][:6])
